@@ -13,6 +13,11 @@ FU = 'rnacos::naming::filter::InstanceFilterUtils::'
 
 
 def run(ck, fb):
+    _run0(ck, fb)
+    r12h(ck, fb)
+
+
+def _run0(ck, fb):
     ck.explanation = (
         'Decides necessary conditions of "queries return exactly the live registrations and a disconnect removes only the connection\'s own '
         'ephemeral instances": (a) Service::remove_instance refuses (returns None before touching the map) when the stored instance is '
@@ -226,3 +231,35 @@ def _closure_table(ck, fb, c, fn):
             bad = 'filter(enabled=%s, healthy=%s, only_enable=%s, only_healthy=%s) = %s, the property requires %s' % (en, he, oe, oh, got, want)
             break
     ck.require(bad is None, 'R12c', '%s:filter-table' % fn, c.where(), bad or '', '%d rows' % n)
+
+
+def r12h(ck, fb):
+    ck.rule('R12h', 'the protection threshold sees every enabled instance: wherever NamingActor hands a list to InstanceFilterUtils::'
+                    'default_instance_filter / default_service_filter, the list was fetched with only_healthy = false (a constant), directly from '
+                    'Service::get_instance_list or through get_instances_and_metadata, which forwards its flag unchanged; the healthy filter is '
+                    'applied once, by the filter, after the healthy/total ratio was compared with the threshold')
+    n = 0
+    for b in fb.find('^' + re.escape(NA)):
+        if b.parent:
+            continue
+        flt = b.calls(re.escape(FU) + r'default_(instance|service)_filter$')
+        if not flt:
+            continue
+        ck.analysed(b)
+        fn = b.name.split('::')[-1]
+        for (pat, idx) in ((re.escape(SV) + r'get_instance_list$', 2), (re.escape(NA) + r'get_instances_and_metadata$', 3)):
+            for s in b.calls(pat):
+                n += 1
+                d = cfg.describe_operand(b, s.args[idx]) if len(s.args) > idx else {'k': 'unknown'}
+                ok = d['k'] == 'const' and d['c'].get('v') in (False, 'false', 0)
+                ck.require(ok, 'R12h', '%s:fetches-unfiltered' % fn, s.where(),
+                           '%s pre-filters the list by health (only_healthy is %s) before the protection threshold is evaluated: healthy/total is '
+                           'then always 1 (or the list is empty), the threshold never triggers and clients lose the unhealthy instances it is '
+                           'meant to keep visible' % (fn, cfg.fmt_desc(d)[:40]), 'only_healthy = false')
+    ck.floor('R12h', 'list fetches feeding the threshold filter', n, 2)
+    g = ck.body(NA + 'get_instances_and_metadata', 'R12h')
+    if g:
+        for s in g.calls(re.escape(SV) + r'get_instance_list$'):
+            d = cfg.describe_operand(g, s.args[2])
+            ok = d['k'] == 'arg' and d.get('l') == 4
+            ck.require(ok, 'R12h', 'get_instances_and_metadata:forwards-flag', s.where(), 'get_instances_and_metadata does not forward its only_healthy flag unchanged (%s)' % cfg.fmt_desc(d)[:40])
